@@ -93,16 +93,17 @@ def showWorld (s : St) : String :=
   " ".intercalate ((List.range s.slots).filterMap (fun i =>
     (s.w.objs i).map (fun c => s!"{i}:\{{showCont s s.w.heap c}}")))
 
-def evSummary (s : St) (evs : List Ev) (exactFrees : Bool) : String :=
+def evSummary (s : St) (evs : List Ev) (exactFrees : Bool) (exactCopies : Bool := true) : String :=
   -- numbers ≥ 1000000 stand for multimap keys without values: no element object behind them
   let copies := (evs.filter (fun e => match e with | .copy x => x < 1000000 | _ => false)).length
   let moves := (evs.filter (fun e => match e with | .move x => x < 1000000 | _ => false)).length
   let al := evs.filterMap (fun e => match e with | .alloc m _ => some m | _ => none)
   let fr := evs.filterMap (fun e => match e with | .free m _ => some m | _ => none)
-  s!"c={if s.cnt then toString copies else "*"} m={if s.mv && s.cnt then toString moves else "*"} A={showSet al} F={if exactFrees then showSet fr else "*"}"
+  s!"c={if s.cnt && exactCopies then toString copies else "*"} m={if s.mv && s.cnt then toString moves else "*"} A={showSet al} F={if exactFrees then showSet fr else "*"}"
 
 /-- run one value operation; `srcTgt` = (source slot, target slot) for the "stolen" flag -/
-def doOp (s : St) (op : Op) (srcTgt : Option (Nat × Nat)) (exactFrees : Bool := true) (events : Bool := true) : St × String :=
+def doOp (s : St) (op : Op) (srcTgt : Option (Nat × Nat)) (exactFrees : Bool := true) (events : Bool := true)
+    (exactCopies : Bool := true) : St × String :=
   let before := match srcTgt with
     | some (src, _) => ((s.w.objs src).map Cont.body).getD []
     | none => []
@@ -115,7 +116,7 @@ def doOp (s : St) (op : Op) (srcTgt : Option (Nat × Nat)) (exactFrees : Bool :=
         let after := ((w'.objs tgt).map Cont.body).getD []
         if !before.isEmpty && before == after then " st=1" else " st=0"
       | none => ""
-    let ev := if events then s!" | {evSummary s' evs exactFrees}" else ""
+    let ev := if events then s!" | {evSummary s' evs exactFrees exactCopies}" else ""
     (s', s!"ok | {showWorld s'}{ev} L={showSet (liveMgrs s')}{st}")
 
 def b! (t : String) : Bool := t == "1"
@@ -138,11 +139,11 @@ def step (s : St) (toks : List String) : St × String :=
     doOp s (.mutate (nat! i) (parseList inl) (parseCells cells) (nat! cap)) none (events := false)
   | ["wmovea", j, i, a, keep, cap, inl, cells] =>
     doOp s (.wMoveCtorA (nat! j) (nat! i) (nat! a) ⟨parseList inl, parseCells cells, nat! cap⟩ (nat! keep))
-      (some (nat! i, nat! j)) (exactFrees := false)
+      (some (nat! i, nat! j)) (exactFrees := false) (exactCopies := s.cfg.k.movable)
   | ["wcas", i, j] => doOp s (.wCopyAssign (nat! i) (nat! j)) none (exactFrees := s.xf)
   | ["wmas", i, j, keep, cap, inl, cells] =>
     doOp s (.wMoveAssign (nat! i) (nat! j) ⟨parseList inl, parseCells cells, nat! cap⟩ (nat! keep))
-      (some (nat! j, nat! i)) (exactFrees := false)
+      (some (nat! j, nat! i)) (exactFrees := false) (exactCopies := s.cfg.k.movable)
   | ["path", nma, pocma, pocca, pocs] =>
     let p := assignPath (b! nma) (b! pocma) (b! pocca) (b! pocs)
     (s, match p with
